@@ -221,6 +221,13 @@ func pk(prefix, key []byte) string {
 	return string(out)
 }
 
+func first(keys [][]byte) []byte {
+	if len(keys) == 0 {
+		return nil
+	}
+	return keys[0]
+}
+
 // DB decorates a basedb.Database.
 type DB struct {
 	inner basedb.Database
@@ -239,7 +246,7 @@ func (d *DB) Get(prefix, key []byte) (obj basedb.Obj, found bool, err error) {
 	return
 }
 func (d *DB) GetMany(prefix []byte, keys [][]byte, it func(basedb.Obj) error) error {
-	return d.in.Do("db.GetMany", fmt.Sprintf("%s x%d", pk(prefix, nil), len(keys)), false, func() error { return d.inner.GetMany(prefix, keys, it) })
+	return d.in.Do("db.GetMany", fmt.Sprintf("%s x%d", pk(prefix, first(keys)), len(keys)), false, func() error { return d.inner.GetMany(prefix, keys, it) })
 }
 func (d *DB) GetAll(prefix []byte, h func(int, basedb.Obj) error) error {
 	return d.in.Do("db.GetAll", pk(prefix, nil), false, func() error { return d.inner.GetAll(prefix, h) })
@@ -353,7 +360,7 @@ func (t *Txn) GetMany(prefix []byte, keys [][]byte, it func(basedb.Obj) error) e
 	if t.broken {
 		return errBroken
 	}
-	return t.in.Do("txn.GetMany", fmt.Sprintf("%s x%d", pk(prefix, nil), len(keys)), false, func() error { return t.reader().GetMany(prefix, keys, it) })
+	return t.in.Do("txn.GetMany", fmt.Sprintf("%s x%d", pk(prefix, first(keys)), len(keys)), false, func() error { return t.reader().GetMany(prefix, keys, it) })
 }
 func (t *Txn) GetAll(prefix []byte, h func(int, basedb.Obj) error) error {
 	if t.broken {
